@@ -7,6 +7,7 @@ mod syn;
 mod util;
 mod li;
 mod ws;
+mod hist;
 
 fn main() {
     std::panic::set_hook(Box::new(|_| {}));
@@ -63,6 +64,7 @@ fn dispatch(cmd: &str, rest: &str) -> String {
         "steps" => syn::steps(&util::unhex_str(rest)),
         "li" => li::run(rest),
         "ws" => ws::run(rest),
+        "hist" => hist::run(rest),
         _ => format!("bad-cmd {}", cmd),
     }
 }
